@@ -30,20 +30,25 @@ def classify(violated, ev, prev):
     name = (violated or "").split(":")[-1]
     total_branch = False
     over = False
+    huge = False
     for x in ev.get("rs", []):
         if not x.get("acc"):
             continue
+        if x["cu"] >= 1000000:
+            huge = True
         if x["rew"] > x["cuv"]:
             over = True
         g = [x["e"], ev["p"], x["proj"], x["sp"]]
         tot = [kv["v"] for kv in ev["st"]["pcec"] if kv["k"] == g]
         if tot and tot[0] >= EFF_TOTAL.get(x["proj"], 1 << 60):
             total_branch = True
-    where = "@total-cu-limit-branch" if total_branch else "@epoch-limit-branch"
-    if over or name in ("C04_PLe", "C04_PQos") and total_branch:
+    where = "@cu-sum-overflow" if huge else "@total-cu-limit-branch" if total_branch else "@epoch-limit-branch"
+    if over or (name in ("C04_PLe",) and total_branch):
         return "credited>signed" + where
     if name == "C04_PEpoch":
         return "epoch-sum>allowance" + where
+    if name == "C04_PQos":
+        return "tracked-cu-delta" + where
     return name + where
 
 
@@ -62,32 +67,25 @@ def run(ctx):
                                           if sum(1 for r in ch if r["ev"] == "pay" and r["ok"]) >= 2})
     ctx.cov["rule"] = ("behaviours = TLC -simulate runs of Payments.tla GenNext profile c04 (10 steps: pay 1-3 relays / epoch / block / "
                        "late block); non-trivial = at least two accepted payment transactions; distinct by full action list")
-    if cov["tx_ok"] < max(10, len(behs) // 2) or cov["relays_acc"] < 20 or cov["capped"] < 3 or cov["epoch"] < 5 or cov["down"] < 1:
+    if (cov["tx_ok"] < max(10, len(behs) // 2) or cov["relays_acc"] < 20 or cov["capped"] < 3 or cov["epoch"] < 5 or cov["down"] < 1
+            or cov["huge"] < 5):
         raise vlib.Infra("vacuous coverage: %s" % cov)
 
     # which transcription does the code follow?  (drift otherwise)
-    variant, ra, rf = _pay.conf(ctx, tpath, "c04_conf")
-    ctx.cov["conforms_to"] = variant
-    if variant is None:
-        ctx.drift.append("real chain is a behaviour of neither transcription of EnforceClientCUsUsageInEpoch: "
-                         "as-found accepted %s lines, repaired accepted %s lines of %d" % (ra, rf, len(rows)))
-    else:
-        v2, _, _ = _pay.conf(ctx, tpath, "c04_conf_tracked", match_tracked=True)
-        if v2 != variant:
-            ctx.drift.append("tracked CU differs from the model once a uint64 wrap occurred (residue mod 2^64 is not representable)")
-    fixed = variant == "fixed"
+    variant = _pay.note_conf(ctx, tpath, "c04_conf", len(rows), match_tracked=True)
 
-    # design level
+    # design level, on the transcription the code conforms to (default: the fully repaired one)
     if os.environ.get("VERIF_PAY_SKIP_MC"):   # development aid for mutant runs: replay only
         return
-    m = _pay.mc(ctx, "Payments C04 properties (%s)" % (variant or "as-found"),
-                "Payments_mcq_c04_fixed.cfg" if fixed else "Payments_mcq_c04.cfg", timeout=ctx.pick(900, 3600))
+    sfx = {"asis": "", "f2": "_fixed", "f2+f2c": "_fixed2", None: "_fixed2"}[variant]
+    m = _pay.mc(ctx, "Payments C04 properties (%s)" % (variant or "f2+f2c"),
+                ctx.pick("Payments_mcq_c04%s.cfg", "Payments_mc_c04%s.cfg") % sfx, timeout=ctx.pick(900, 3600))
     if m["violated"]:
-        msg = "design level: TLC violates %s on the %s transcription (candidate only; the verdict comes from the replay)" % (
-            m["violated"], "repaired" if fixed else "as-found")
+        msg = "design level: TLC violates %s on the '%s' transcription (candidate only; the verdict comes from the replay)" % (
+            m["violated"], variant or "f2+f2c")
         ctx.notes.append(msg)
-        if fixed:
-            raise vlib.Infra(msg + " - the repaired transcription must satisfy C04 (see %s)" % m["outfile"])
+        if variant != "asis":
+            raise vlib.Infra(msg + " - a repaired transcription must satisfy C04 (see %s)" % m["outfile"])
     ctx.assumptions += _pay.ASSUMPTIONS
 
 
